@@ -271,6 +271,10 @@ def c15_3(rep, ix):
                 elif a == "append":
                     ok = ".parameter().NAME().getText()" in rt or guarded_by_ptype(f.node, st)
                     why = "appends `%s`" % rt[:60]
+                    if ok and ".parameter().NAME().getText()" not in rt and q != ARRAY and ix.funcs[q].qual in ix.known:
+                        # a name (string) is registered: only array declarations are passed by name; a scalar `float p2 = 0.7` is a value
+                        ok = False
+                        why = "registers the name `%s` as a p-array outside the array declaration handler (a scalar named like a p-array is then refused / passed by name)" % rt[:40]
                 elif a == "extend":
                     ok = in_param_array_branch(f.node, st) and arg is not None and "final_value" in u(arg)
                     why = "extends with `%s` outside the whole-array expansion" % rt[:60]
